@@ -361,6 +361,11 @@ impl<'a> TermIo<'a> {
     pub fn is_closed(&self) -> bool {
         self.out.closed.is_some()
     }
+
+    /// Is a delayed release still waiting for its (virtual) time?
+    pub fn has_delayed(&self) -> bool {
+        !self.out.delayed.is_empty()
+    }
 }
 
 struct State {
